@@ -1,5 +1,6 @@
 """E4/E6 -- abstract locations, effects, literals, affine forms."""
 import ast
+import re
 from fractions import Fraction
 
 from .index import AnalysisError, is_spawn, walk_no_nested
@@ -91,6 +92,8 @@ class Canon:
             if e is None:
                 ok = False
                 break
+            if isinstance(e, (ast.List, ast.Tuple)) and not e.elts:
+                continue
             if src is None:
                 src = e
             elif ast.dump(e) != ast.dump(src):
@@ -839,7 +842,11 @@ def effects_of_event(canon, ev):
                                       root, ev, root.value))
             elif isinstance(root, ast.Delete):
                 for t in root.targets:
-                    out.append(Effect('del', canon.c(t, fr), None, root, ev))
+                    if isinstance(t, ast.Subscript) and not isinstance(t.slice, ast.Slice):
+                        # del D[k] has the effect of D.pop(k)
+                        out.append(Effect('pop', canon.c(t.value, fr), canon.c(t.slice, fr), root, ev, t.slice))
+                    else:
+                        out.append(Effect('del', canon.c(t, fr), None, root, ev))
         for n in _walk_expr(root):
             if isinstance(n, ast.Call) and isinstance(n.func, ast.Attribute) and \
                     n.func.attr in MUTATORS:
@@ -1134,7 +1141,108 @@ class Logic:
                 parts.append(ast.Compare(left=left, ops=[op], comparators=[r]))
                 left = r
             return self.dnf(ast.BoolOp(op=ast.And(), values=parts), fr, pol, depth)
+        shape = self._emptiness_shape(e, fr, pol)
+        if shape is not None:
+            r = self._empty_comp_dnf(shape[0], fr, shape[1], depth)
+            if r is not None:
+                return r
+            parts = self._concat_parts(shape[0], fr)
+            if len(parts) > 1 and (_is_len(e) or isinstance(e, ast.Compare) or all(
+                    isinstance(x, (ast.Attribute, ast.Subscript, ast.List, ast.ListComp)) for x in parts)):
+                # A + B is empty iff A and B are (containers: never for a numeric sum)
+                tests = [ast.Compare(left=ast.Call(func=ast.Name(id='len', ctx=ast.Load()), args=[x], keywords=[]),
+                                     ops=[ast.Eq()], comparators=[ast.Constant(value=0)]) for x in parts]
+                return self.dnf(ast.BoolOp(op=ast.And(), values=tests), fr, shape[1], depth)
+        if isinstance(e, ast.Compare) and len(e.ops) == 1 and isinstance(e.ops[0], (ast.In, ast.NotIn)):
+            parts = self._concat_parts(e.comparators[0], fr)
+            if len(parts) > 1:
+                # x in A + B iff x in A or x in B
+                tests = [ast.Compare(left=e.left, ops=[ast.In()], comparators=[x]) for x in parts]
+                return self.dnf(ast.BoolOp(op=ast.Or(), values=tests), fr,
+                                pol if isinstance(e.ops[0], ast.In) else not pol, depth)
         return [[self.atom(e, fr, pol)]]
+
+    def _concat_parts(self, e, fr, _d=0):
+        """operands of a list concatenation A + B (+ C), looking through single-assignment locals"""
+        if _d > 6:
+            return [e]
+        if isinstance(e, ast.Name) and fr is not None and e.id not in fr.binding and e.id in fr.aliases:
+            return self._concat_parts(fr.aliases[e.id], fr, _d + 1)
+        if isinstance(e, ast.BinOp) and isinstance(e.op, ast.Add):
+            return self._concat_parts(e.left, fr, _d + 1) + self._concat_parts(e.right, fr, _d + 1)
+        if isinstance(e, ast.Call) and isinstance(e.func, ast.Name) and e.func.id in ('list', 'tuple') \
+                and len(e.args) == 1 and not e.keywords and isinstance(e.args[0], (ast.BinOp, ast.Name)):
+            inner = self._concat_parts(e.args[0], fr, _d + 1)
+            if len(inner) > 1:
+                return inner
+        return [e]
+
+    def _emptiness_shape(self, e, fr, pol):
+        """(container expr, asserted-empty?) when `e is pol` states (non-)emptiness of a container"""
+        if isinstance(e, ast.Call) and isinstance(e.func, ast.Name) and e.func.id == 'bool' and len(e.args) == 1:
+            return self._emptiness_shape(e.args[0], fr, pol)
+        if _is_len(e):
+            return e.args[0], not pol
+        if isinstance(e, ast.Compare) and len(e.ops) == 1:
+            op = _CMP[type(e.ops[0])]
+            l, r = e.left, e.comparators[0]
+            if fr is not None:
+                if isinstance(l, ast.Name) and l.id in fr.aliases and _is_len(fr.aliases[l.id]):
+                    l = fr.aliases[l.id]
+                if isinstance(r, ast.Name) and r.id in fr.aliases and _is_len(fr.aliases[r.id]):
+                    r = fr.aliases[r.id]
+            for a, b, o in ((l, r, op), (r, l, _flip(op))):
+                if _is_len(a) and _num(b) is not None:
+                    n = _num(b)
+                    if (o, n) in (('==', 0), ('<', 1), ('<=', 0)):
+                        return a.args[0], pol
+                    if (o, n) in (('!=', 0), ('>', 0), ('>=', 1)):
+                        return a.args[0], not pol
+            return None
+        if isinstance(e, (ast.Name, ast.ListComp, ast.GeneratorExp)):
+            return e, not pol
+        return None
+
+    def _empty_comp_dnf(self, e, fr, pol, depth):
+        """like _empty_comp, over a domain of known singleton objects: the instances spelled out"""
+        if fr is None:
+            return None
+        comp = e
+        if isinstance(e, ast.Name) and e.id not in fr.binding:
+            from .paths import assigned_names
+            defs = assigned_names(fr.func).get(e.id, [])
+            if len(defs) == 1 and isinstance(defs[0], ast.Assign) and len(defs[0].targets) == 1 and \
+                    isinstance(defs[0].targets[0], ast.Name):
+                comp = defs[0].value
+        if not (isinstance(comp, (ast.ListComp, ast.GeneratorExp)) and len(comp.generators) == 1
+                and comp.generators[0].ifs):
+            return None
+        g = comp.generators[0]
+        vs = [self.canon.c(x, fr) for x in ast.walk(g.target) if isinstance(x, ast.Name)]
+        cond = g.ifs[0] if len(g.ifs) == 1 else ast.BoolOp(op=ast.And(), values=list(g.ifs))
+        # empty: every element fails the filter; non-empty: some element passes it
+        return self._instantiate(g, vs, cond, fr, pol, not pol, depth)
+
+    def _instantiate(self, g, vs, body, fr, universal, body_pol, depth):
+        """a quantifier whose domain is a known set of singleton objects (the hot and cold tier,
+        ...) is the conjunction / disjunction of its instances"""
+        from .skel import elem_singletons, _reorder_eq
+        import itertools
+        if len(vs) != 1:
+            return None
+        sing = sorted(elem_singletons(self.canon, g.iter, fr))
+        if not sing:
+            return None
+        alts = self.dnf(body, fr, body_pol, depth)
+
+        def inst(l, t):
+            return _reorder_eq(Lit(re.sub(r'(?<![\w#.$])%s(?![\w])' % re.escape(vs[0]), t, l.atom), l.pol))
+        per = [[[inst(l, t) for l in a] for a in alts] for t in sing]
+        if universal:
+            if len(alts) ** len(sing) > 32:
+                return None
+            return [sum(combo, []) for combo in itertools.product(*per)]
+        return [a for t_alts in per for a in t_alts]
 
     def _is_predicate_call(self, call, fr):
         cals, exact = self.canon.repo.resolve_call(call, fr.func)
@@ -1164,6 +1272,9 @@ class Logic:
             # all(P) true / any(P) false are universal; the other two existential
             universal = (fn.id == 'all') == pol
             inner_pol = True if fn.id == 'all' else False
+            inst = self._instantiate(g, vs, body, fr, universal, inner_pol if universal else not inner_pol, depth)
+            if inst is not None:
+                return inst
             if universal:
                 alts = self.dnf(body, fr, inner_pol, depth)
                 if len(alts) == 1:
@@ -1415,3 +1526,8 @@ def lit_le(a, b):
 def lit_lt(a, b):
     """canonical literal for a < b"""
     return Lit('%r <= 0' % (_aff(b) - _aff(a),), False)
+
+
+def path_effects(canon, events):
+    """flat list of the effects along one path (path-sensitive local aliases/constants)"""
+    return [ef for _e, efs in effects_along(canon, events) for ef in efs]
